@@ -2,11 +2,11 @@ SPECIFICATION Spec
 CONSTANTS
   MODE = "matrix"
   SEED = 1
-  T1 = 4
+  T1 = 3
   T2 = 1
   T3 = 0
-  NS2 = 40
-  NS3 = 24
+  NS2 = 24
+  NS3 = 12
   NSBIG = 12
   NCAP = 10
   HOF = 1
